@@ -9,11 +9,12 @@
 (* steps so that all TLC workers share the enumeration. TLC checks that every line the model emits  *)
 (* satisfies the property predicates (same definitions as Wrap.tla, restated on abstract boundary   *)
 (* sets) and that the model terminates. Diagnostic: it models the code as repaired by the fixes     *)
-(* listed in DESIGN.md section 8; with the two repairs removed (markWordOptionInvalid, the          *)
-(* pre-commit on `truncated`) TLC produces the counterexamples that the real code used to show.     *)
+(* listed in DESIGN.md section 8; with a repair removed (markWordOptionInvalid, the pre-commit on     *)
+(* `truncated`, cutting a whole first run under letter spacing) TLC produces the counterexamples    *)
+(* that the real code used to show.                                                                 *)
 EXTENDS Naturals, Integers, Sequences, FiniteSets, TLC
 
-CONSTANTS MaxN, Policies, Truncs, MaxRuns, FixInvalid, FixTrunc
+CONSTANTS MaxN, Policies, Truncs, MaxRuns, FixInvalid, FixTrunc, FixFirstRun, LSs
 
 Never == "Never"  Always == "Always"  WhenNec == "WhenNecessary"
 
@@ -29,16 +30,26 @@ RunsOf(s) == LET st == SortedSeq(s.rb) IN
 (* number of clusters (= advance) in [a,b) ; a,b cluster boundaries *)
 Adv(s, a, b) == Cardinality({x \in s.cb : x >= a /\ x < b})
 
-(* advance of piece [a,b) discounting a trailing whitespace cluster *)
-AdvSpaceAware(s, a, b) == IF b > a /\ (b - 1) \in s.ws THEN Adv(s, a, b) - 1 ELSE Adv(s, a, b)
+(* Letter spacing (abstracted to its leading half): with s.ls = 1 every cluster carries one unit of     *)
+(* leading spacing in front of its unit of ink; cutRun removes it from the first glyph of a piece that   *)
+(* starts a line (trim).                                                                                 *)
+CAdv(s) == 1 + s.ls
+PieceAdv(s, a, b, trim) == Adv(s, a, b) * CAdv(s) - (IF trim /\ Adv(s, a, b) > 0 THEN s.ls ELSE 0)
+(* advance of piece [a,b) discounting a trailing whitespace cluster (its own advance, after trimming) *)
+AdvSpaceAwareT(s, a, b, trim) ==
+  LET lastAdv == IF Adv(s, a, b) = 1 /\ trim THEN CAdv(s) - s.ls ELSE CAdv(s)
+  IN IF b > a /\ (b - 1) \in s.ws THEN PieceAdv(s, a, b, trim) - lastAdv ELSE PieceAdv(s, a, b, trim)
 
 
 RECURSIVE Fill(_, _, _, _, _, _, _)
 Fill(s, rs, i, ls, opt, alt, adv) ==
   IF i > Len(rs) \/ ~(opt >= rs[i].end) THEN [idx |-> i, alt |-> alt, adv |-> adv]
   ELSE IF ls >= rs[i].end THEN Fill(s, rs, i + 1, ls, opt, alt, adv)
-  ELSE LET a == IF ls > rs[i].off THEN ls ELSE rs[i].off IN
-       Fill(s, rs, i + 1, ls, opt, Append(alt, << a, rs[i].end >>), adv + Adv(s, a, rs[i].end))
+  ELSE LET a == IF ls > rs[i].off THEN ls ELSE rs[i].off
+           \* a run partly used by the previous line is cut (and trimmed when it starts the line); a run used
+           \* entirely is appended as is - unless the repair FixFirstRun cuts it too
+           trim == alt = << >> /\ (ls > rs[i].off \/ FixFirstRun)
+       IN Fill(s, rs, i + 1, ls, opt, Append(alt, << a, rs[i].end >>), adv + PieceAdv(s, a, rs[i].end, trim))
 
 FillResult(s, rs, i, ls, opt, alt, adv) == Fill(s, rs, i, ls, opt, alt, adv)
 
@@ -64,7 +75,7 @@ Contig(ls, k) == LET ps == ls[k].pieces IN
                           /\ ps[j][1] = (IF j = 1 THEN LineStartOf(ls, k) ELSE ps[j - 1][2])
 
 Permitted(s, e, fine) == e \in s.cb /\ (e = s.n \/ e \in s.wb \/ (fine /\ e \in s.gb))
-WidthOf(s, a, b) == AdvSpaceAware(s, a, b)
+WidthOf(s, a, b) == AdvSpaceAwareT(s, a, b, TRUE)      \* a line starts trimmed
 FirstPermitted(s, a, fine) == LET c == {e \in (a + 1)..s.n : Permitted(s, e, fine)} IN IF c = {} THEN s.n ELSE CHOOSE e \in c : \A y \in c : e <= y
 
 LegalEnd(s, ls, k) == LET a == LineStartOf(ls, k) e == LineEndOf(ls, k) IN e = a \/ Permitted(s, e, s.policy # Never)
@@ -86,7 +97,7 @@ NonEmpty(ls, k) == Len(ls[k].pieces) > 0 \/ ls[k].hasTruncator
 (*
 --algorithm Wrap {
   variables
-    scen = [n |-> 0, gb |-> {}, wb |-> {}, mb |-> {}, cb |-> {}, ws |-> {}, rb |-> {}, policy |-> "Never", trunc |-> 0, cont |-> FALSE, width |-> 0],
+    scen = [n |-> 0, gb |-> {}, wb |-> {}, mb |-> {}, cb |-> {}, ws |-> {}, rb |-> {}, policy |-> "Never", trunc |-> 0, cont |-> FALSE, width |-> 0, ls |-> 0],
     runs = << >>,
     wbs = << >>, gbs = << >>,
     lineStart = 0, more = TRUE, left = 0,
@@ -118,7 +129,7 @@ NonEmpty(ls, k) == Len(ls[k].pieces) > 0 \/ ls[k].hasTruncator
           with (run = runs[r.idx]; e = opt + 1; a = IF lineStart > run.off THEN lineStart ELSE run.off) {
             if (e < run.end /\ e > run.off /\ e \notin scen.cb) { res := "invalid"; }
             else {
-              with (w = r.adv + AdvSpaceAware(scen, a, e)) {
+              with (w = r.adv + AdvSpaceAwareT(scen, a, e, r.alt = << >>)) {
                 cand := << a, e >>;
                 if (w > maxW) { res := IF hasBest THEN "newLineBeforeBreak" ELSE "cannotFit"; }
                 else if (truncating /\ w > truncW) {
@@ -148,9 +159,9 @@ NonEmpty(ls, k) == Len(ls[k].pieces) > 0 \/ ls[k].hasTruncator
       scen := [scen EXCEPT !.rb = R \cup {0}, !.ws = S];
     };
   s4:
-    with (p \in Policies; t \in Truncs; c \in BOOLEAN; w \in 0..(scen.n + 1)) {
+    with (p \in Policies; t \in Truncs; c \in BOOLEAN; l \in LSs; w \in 0..(scen.n * (1 + l) + 1)) {
       await t # 0 \/ ~c;
-      scen := [scen EXCEPT !.policy = p, !.trunc = t, !.cont = c, !.width = w];
+      scen := [scen EXCEPT !.policy = p, !.trunc = t, !.cont = c, !.width = w, !.ls = l];
       left := t;
     };
   s5:
@@ -272,7 +283,7 @@ vars == << pc, scen, runs, wbs, gbs, lineStart, more, left, wi, gi, unusedW,
            steps >>
 
 Init == (* Global variables *)
-        /\ scen = [n |-> 0, gb |-> {}, wb |-> {}, mb |-> {}, cb |-> {}, ws |-> {}, rb |-> {}, policy |-> "Never", trunc |-> 0, cont |-> FALSE, width |-> 0]
+        /\ scen = [n |-> 0, gb |-> {}, wb |-> {}, mb |-> {}, cb |-> {}, ws |-> {}, rb |-> {}, policy |-> "Never", trunc |-> 0, cont |-> FALSE, width |-> 0, ls |-> 0]
         /\ runs = << >>
         /\ wbs = << >>
         /\ gbs = << >>
@@ -348,10 +359,11 @@ s4 == /\ pc = "s4"
       /\ \E p \in Policies:
            \E t \in Truncs:
              \E c \in BOOLEAN:
-               \E w \in 0..(scen.n + 1):
-                 /\ t # 0 \/ ~c
-                 /\ scen' = [scen EXCEPT !.policy = p, !.trunc = t, !.cont = c, !.width = w]
-                 /\ left' = t
+               \E l \in LSs:
+                 \E w \in 0..(scen.n * (1 + l) + 1):
+                   /\ t # 0 \/ ~c
+                   /\ scen' = [scen EXCEPT !.policy = p, !.trunc = t, !.cont = c, !.width = w, !.ls = l]
+                   /\ left' = t
       /\ pc' = "s5"
       /\ UNCHANGED << runs, wbs, gbs, lineStart, more, wi, gi, unusedW, 
                       unusedWReq, prevW, isUnusedW, unusedG, isUnusedG, idx, 
@@ -480,7 +492,7 @@ w1 == /\ pc = "w1"
                                                      IF e < run.end /\ e > run.off /\ e \notin scen.cb
                                                         THEN /\ res' = "invalid"
                                                              /\ cand' = cand
-                                                        ELSE /\ LET w == r.adv + AdvSpaceAware(scen, a, e) IN
+                                                        ELSE /\ LET w == r.adv + AdvSpaceAwareT(scen, a, e, r.alt = << >>) IN
                                                                   /\ cand' = << a, e >>
                                                                   /\ IF w > maxW
                                                                         THEN /\ res' = IF hasBest THEN "newLineBeforeBreak" ELSE "cannotFit"
@@ -595,7 +607,7 @@ g1 == /\ pc = "g1"
                                                      IF e < run.end /\ e > run.off /\ e \notin scen.cb
                                                         THEN /\ res' = "invalid"
                                                              /\ cand' = cand
-                                                        ELSE /\ LET w == r.adv + AdvSpaceAware(scen, a, e) IN
+                                                        ELSE /\ LET w == r.adv + AdvSpaceAwareT(scen, a, e, r.alt = << >>) IN
                                                                   /\ cand' = << a, e >>
                                                                   /\ IF w > maxW
                                                                         THEN /\ res' = IF hasBest THEN "newLineBeforeBreak" ELSE "cannotFit"
